@@ -60,6 +60,7 @@ type Contract struct {
 	Preserves []*Clause
 	LoopInv   []*Clause
 	LoopDec   []*Clause
+	LoopCand  []*Clause // candidate invariants: kept per loop only if inductive (Houdini)
 	Inline    bool
 	Trusted   bool   // contract assumed, body not verified
 	Opaque    bool   // never inline; without ensures the result is havocked
@@ -312,6 +313,9 @@ func (S *Specs) parseFile(path string) error {
 				case "decreases":
 					c.Ord = len(cur.LoopDec) + 1
 					cur.LoopDec = append(cur.LoopDec, c)
+				case "candidate":
+					c.Ord = len(cur.LoopCand) + 1
+					cur.LoopCand = append(cur.LoopCand, c)
 				default:
 					return fail(fmt.Errorf("unknown loop clause %q", kw2))
 				}
